@@ -2,7 +2,7 @@
 """False-alarm test: apply behaviour-preserving refactorings of /repo (patches written by people who never saw /verif),
 run the checks of the properties whose anchors they touch, undo.  A VIOLATION here is a false alarm of the machinery;
 UNDECIDED (exit 2: lost anchor, construct outside the declared rewrites, proof not re-found) is the allowed answer.
-usage: run_refactors.py <dir-with-rN/patch.diff> <name-prefix> <prop,prop,...> [only...]   -> refactors/RESULTS.json"""
+usage: run_refactors.py <dir-with-rN/patch.diff | stored> <name-prefix> <prop,prop,...> [only...]   -> refactors/RESULTS.json"""
 import subprocess, json, os, sys, glob, shutil, tempfile, atexit
 src, prefix, props = sys.argv[1], sys.argv[2], sys.argv[3].split(",")
 only = sys.argv[4:]
@@ -17,8 +17,10 @@ atexit.register(_restore)
 os.makedirs("/verif/refactors", exist_ok=True)
 rp = "/verif/refactors/RESULTS.json"
 res = json.load(open(rp)) if os.path.exists(rp) else {}
-for d in sorted(glob.glob(os.path.join(src, "r*"))):
-    nm = prefix + "-" + os.path.basename(d)
+# `stored` as <dir>: take the patches already copied to /verif/refactors/<prefix>-rN
+dirs = sorted(glob.glob("/verif/refactors/%s-r*" % prefix)) if src == "stored" else sorted(glob.glob(os.path.join(src, "r*")))
+for d in dirs:
+    nm = os.path.basename(d) if src == "stored" else prefix + "-" + os.path.basename(d)
     if only and nm not in only:
         continue
     patch = os.path.join(d, "patch.diff")
@@ -26,9 +28,10 @@ for d in sorted(glob.glob(os.path.join(src, "r*"))):
         continue
     dst = os.path.join("/verif/refactors", nm)
     os.makedirs(dst, exist_ok=True)
-    shutil.copy(patch, dst)
-    if os.path.exists(os.path.join(d, "notes.md")):
-        shutil.copy(os.path.join(d, "notes.md"), dst)
+    if src != "stored":
+        shutil.copy(patch, dst)
+        if os.path.exists(os.path.join(d, "notes.md")):
+            shutil.copy(os.path.join(d, "notes.md"), dst)
     assert subprocess.run("git -C /repo status --porcelain --untracked-files=no", shell=True, capture_output=True, text=True).stdout.strip() == "", "repo dirty"
     r = subprocess.run("git -C /repo apply %s" % patch, shell=True, capture_output=True, text=True)
     if r.returncode != 0:
